@@ -283,6 +283,27 @@ def discharge(ctx, body, p, ev, kind):
             ends = list(a_[2])
             if all(within(x) for x in ends) and (a_[1] != "Range" or const_int(strip_refs(ends[0])) == 0 or strip_refs(ends[0]) == strip_refs(ends[1])):
                 return "G6-slice-at-own-length"
+
+            def counted(t):
+                """a number of elements of the same collection: iter().position(..) found, iter().take_while(..).count(), iter().filter(..).count()"""
+                t = strip_refs(t)
+                if isinstance(t, tuple) and t and t[0] == "field" and t[2] == 0 and isinstance(t[1], tuple) and t[1][0] == "downcast" and t[1][2] == "Some" \
+                        and is_call(strip_refs(t[1][1]), "Iterator>::position", "::position", "::rposition"):
+                    src = strip_refs(call_args(strip_refs(t[1][1]))[0])
+                elif is_call(t, "Iterator::count", "::count") and is_call(strip_refs(call_args(t)[0]), "Iterator::take_while", "Iterator::filter", "Iterator::skip_while"):
+                    src = strip_refs(call_args(strip_refs(call_args(t)[0]))[0])
+                else:
+                    return False
+                while isinstance(src, tuple) and src and src[0] in ("loc", "refmut", "ref"):
+                    src = strip_refs(src[2] if src[0] == "loc" and len(src) > 2 else src[1])
+                return is_call(src, "[T]>::iter", "IntoIterator>::into_iter") and _lib.coll(call_args(src)[0]) == c0
+            cr = _lib.canon_range(ev.args[0], ev.args[1])
+            if cr is not None:
+                lo_, hi_ = cr
+                lo_ok = const_int(strip_refs(lo_)) == 0 or within(lo_) or counted(lo_)
+                hi_ok = hi_ == LEN or within(hi_) or counted(hi_)
+                if lo_ok and hi_ok and (const_int(strip_refs(lo_)) == 0 or hi_ == LEN or (length_of(hi_) is not None and length_of(hi_) == c0)):
+                    return "G6-slice-at-counted-position"
         if last == "index" and "[T]" in nm:
             coll, rg = ev.args[0], ev.args[1]
             a = agg_variant(rg)
